@@ -568,12 +568,43 @@ func (s *SwapService) estimateMaximumSwapAmountSat(chain string) (uint64, error)
 	return 0, errors.New("invalid chain")
 }
 
+// ErrSwapIdInUse is returned for a swap request that carries the id of a swap
+// this node already knows.
+var ErrSwapIdInUse = errors.New("swap id is already in use")
+
+// refuseKnownSwapId refuses a request whose swap id belongs to a swap that is
+// active or stored (finished, or not yet recovered after a restart). Accepting
+// it would replace the active swap and overwrite the stored record.
+func (s *SwapService) refuseKnownSwapId(swapId *SwapId, peerId string) error {
+	_, err := s.GetActiveSwap(swapId.String())
+	known := err == nil
+	if !known {
+		_, err = s.swapServices.swapStore.GetData(swapId.String())
+		known = err == nil
+	}
+	if !known {
+		return nil
+	}
+	msgBytes, msgType, err := MarshalPeerswapMessage(&CancelMessage{
+		SwapId:  swapId,
+		Message: ErrSwapIdInUse.Error(),
+	})
+	if err != nil {
+		return err
+	}
+	s.swapServices.messenger.SendMessage(peerId, msgBytes, msgType)
+	return ErrSwapIdInUse
+}
+
 // OnSwapInRequestReceived creates a new swap-in process and sends the event to the swap statemachine
 func (s *SwapService) OnSwapInRequestReceived(swapId *SwapId, peerId string, message *SwapInRequestMessage) error {
 	var (
 		premiumValue int64
 		err          error
 	)
+	if err := s.refuseKnownSwapId(swapId, peerId); err != nil {
+		return err
+	}
 	// Network is the desired on-chain network to use. This can be:
 	// Bitcoin: mainnet, testnet, signet, regtest
 	// Liquid: The field is left blank as the asset id also defines the bitcoinNetwork.
@@ -685,6 +716,9 @@ func (s *SwapService) OnSwapOutRequestReceived(swapId *SwapId, peerId string, me
 		premiumValue int64
 		err          error
 	)
+	if err := s.refuseKnownSwapId(swapId, peerId); err != nil {
+		return err
+	}
 	// Network is the desired on-chain network to use. This can be:
 	// Bitcoin: mainnet, testnet, signet, regtest
 	// Liquid: The field is left blank as the asset id also defines the bitcoinNetwork.
